@@ -112,6 +112,12 @@ TRemove ==
   /\ IF E.res = "ok" THEN FsRemove(E.h, E.path, E.pk) ELSE FsNop
   /\ ApiUnch /\ KeepT /\ Step
 
+(* An injected fault: the call was NOT performed, the process saw an I/O error (EIO, EMFILE, ENOSPC as one   *)
+(* process sees them).  Nothing changes in the directory; what the code does next is what is being examined.  *)
+TFault ==
+  /\ l <= Len(Ev) /\ E.ev = "fs" /\ E.res = "EIO"
+  /\ FsNop /\ ApiUnch /\ KeepT /\ Step
+
 -----------------------------------------------------------------------------
 TCall ==
   /\ l <= Len(Ev) /\ E.ev = "call"
@@ -148,7 +154,7 @@ TCrash ==
 TDone == l > Len(Ev) /\ UNCHANGED vars     \* the whole trace was consumed
 
 TNext == \/ TCreateExcl \/ TTempFile \/ TOpenWrite \/ TOpenRead \/ TReadFile \/ TReadDir
-         \/ TWrite \/ TClose \/ TRename \/ TRemove
+         \/ TWrite \/ TClose \/ TRename \/ TRemove \/ TFault
          \/ TCall \/ TReturn \/ TView \/ TCrash \/ TStuck \/ TDone
 
 TSpec == TInit /\ [][TNext]_vars
@@ -194,6 +200,7 @@ C09_Refreshed == (obs.kind = "view" /\ obs.uptodate = "must") => obs.names = Lis
 Check(name, cond) == cond \/ (PrintT(<<"VIOL", name, Traces[tr].id, l - 1>>) /\ FALSE)
 T_C04_NoLostNoPhantom   == Check("C04_NoLostNoPhantom", C04_NoLostNoPhantom)
 T_C04_AckIffCommitted   == Check("C04_AckIffCommitted", C04_AckIffCommitted)
+T_C04_AckedIsCommitted  == Check("C04_AckedIsCommitted", acked \subseteq Range(committed))    \* the half of C04_AckIffCommitted that holds under injected faults too
 T_C04_OneAtATime        == Check("C04_OneAtATime", C04_OneAtATime)
 T_C04_OnlyLockFailures  == Check("C04_OnlyLockFailures", C04_OnlyLockFailures)
 T_C04_FinalView         == Check("C04_FinalView", C04_FinalView)
@@ -214,8 +221,18 @@ T_C16_GcSucceeds        == Check("C16_GcSucceeds", C16_GcSucceeds)
 (* All of them in one invariant whose evaluation cannot short-circuit (TLC   *)
 (* stops at the first violated invariant of a state, which would mask the    *)
 (* others): a set enumeration evaluates every element.                       *)
-T_All == {T_C04_NoLostNoPhantom, T_C04_AckIffCommitted, T_C04_OneAtATime, T_C04_OnlyLockFailures, T_C04_FinalView,
+T_AllPlain == {T_C04_NoLostNoPhantom, T_C04_AckIffCommitted, T_C04_AckedIsCommitted, T_C04_OneAtATime, T_C04_OnlyLockFailures, T_C04_FinalView,
           T_C05_ListIntegrity, T_C05_NoGc, T_C06_Atomic, T_C08_OwnerOnly, T_C09_StaleNeverCommits, T_C09_Refreshed,
           T_C10_OneVersion, T_C10_Readable, T_C10_Content, T_C10_Terminates,
           T_C16_IdleOwnsNothing, T_C16_QuiescentDir, T_C16_GcSucceeds} = {TRUE}
+
+(* Executions with an injected I/O fault (Traces[tr].fault): the clauses an I/O error makes unattainable are not       *)
+(* evaluated - an Add that fails in the reload AFTER its commit point (C04_AckIffCommitted's second half), failures     *)
+(* other than lock failures, Close / Clean reporting the error.  Everything an error path may never do still is.        *)
+T_AllFault == {T_C04_NoLostNoPhantom, T_C04_AckedIsCommitted, T_C04_OneAtATime, T_C04_FinalView,
+          T_C05_ListIntegrity, T_C05_NoGc, T_C06_Atomic, T_C08_OwnerOnly, T_C09_StaleNeverCommits,
+          T_C10_OneVersion, T_C10_Readable, T_C10_Content, T_C10_Terminates,
+          T_C16_IdleOwnsNothing, T_C16_QuiescentDir} = {TRUE}
+
+T_All == IF Traces[tr].fault THEN T_AllFault ELSE T_AllPlain
 =============================================================================
